@@ -61,6 +61,7 @@ type rangeInfo struct {
 	m    Term
 	mt   *types.Map
 	isStr bool
+	gv   string // ghost heap key of the visited-key set (map ranges)
 }
 
 type loopInfo struct {
@@ -452,6 +453,11 @@ func (f *frame) loopMods(li *loopInfo) (keys map[string]bool, all bool, allocs b
 				for _, k := range vc.mapKeys(mt) {
 					keys[k] = true
 					li.nonFresh[k] = true
+				}
+			case *ssa.Next:
+				if ri := f.rangeOf[x.Iter]; ri != nil && ri.gv != "" && depth == 0 {
+					keys[ri.gv] = true
+					li.nonFresh[ri.gv] = true
 				}
 			case *ssa.Defer, *ssa.Go, *ssa.Send, *ssa.Select:
 				all = true
